@@ -272,8 +272,12 @@ Definition mapped_data_page (ck : pchecks) (r : col_reader) (l : loaded) (has_le
   then rmap Some (zero_copy_view ck r l) else Ok None.
 
 (** Fixed-width dictionary: bytes copied out of the (decompressed) page of page_size bytes. *)
+(** carquet_read_dictionary_page has its own size switch: BOOLEAN (and BYTE_ARRAY, handled apart) count 0. *)
+Definition dict_value_size (type tl : Z) : Z :=
+  if (type =? E_CARQUET_PHYSICAL_BOOLEAN) || (type =? E_CARQUET_PHYSICAL_BYTE_ARRAY) then 0 else value_size type tl.
+
 Definition dictionary_copy (ck : pchecks) (r : col_reader) (dict_num_values page_size : Z) : res Z :=
-  let vs := value_size (cr_type r) (cr_type_length r) in
+  let vs := dict_value_size (cr_type r) (cr_type_length r) in
   if pk_dict ck && ((dict_num_values <? 0) || (negb (vs =? 0) && (dict_num_values >? page_size / vs)))
   then Err E_CARQUET_ERROR_DECODE else
   let bytes := vs * dict_num_values in
